@@ -32,7 +32,6 @@ schema(P + "simple_cache.SimpleCache", {
 ENTRY = TStruct(P + "cache_entry.CacheEntry", {"inputs": DATA, "outputs": DATA, "jacobian": DATA})
 
 # spec functions ------------------------------------------------------------------------------
-within_tol = z3.Function("within_tol", DATA.sort(), DATA.sort(), z3.ArraySort(z3.IntSort(), ValS), z3.RealSort(), z3.BoolSort())
 
 
 def kq(name="k!spec"):
@@ -61,8 +60,9 @@ def dict_term(d):
 
 
 def matches(c, data, stored, heap, tol):
-    """Specification of 'the input data hit the stored entry' (compare_dict_of_arrays)."""
-    return z3.If(tol == 0, content_eq(data, stored, heap, heap), within_tol(dict_term(data), dict_term(stored), heap, tol))
+    """Specification of 'the input data hit the stored entry' (compare_dict_of_arrays): equal contents for tolerance 0,
+    otherwise an uninterpreted closeness predicate of the two contents and the tolerance."""
+    return matches_c(cont(data, heap), cont(stored, heap), tol)
 
 
 # abstract *content* of a dict of arrays: name -> optional array content (what hashing/comparison see) ----
@@ -70,19 +70,11 @@ OV = TOpt(TVal)
 HEAPS = z3.ArraySort(z3.IntSort(), ValS)
 CONTENT = z3.ArraySort(TStr.sort(), OV.sort())
 def contf(m, v, h):
+    """name -> some(content of the array) | none; a z3 lambda, so that equality of contents is array extensionality."""
     k = z3.Const("k!lam", TStr.sort())
     return z3.Lambda([k], z3.If(m[k], OV.dt.some(h[v[k]]), OV.dt.none))
 hashf = z3.Function("hash_data", CONTENT, z3.IntSort())  # uninterpreted: collisions allowed
 wtol = z3.Function("within_tol_c", CONTENT, CONTENT, z3.RealSort(), z3.BoolSort())
-
-
-def cont_axiom():
-    """Definition of ``content_of`` (pointwise); equality of contents is array extensionality."""
-    m = z3.Const("m!ct", z3.ArraySort(TStr.sort(), z3.BoolSort()))
-    v = z3.Const("v!ct", z3.ArraySort(TStr.sort(), z3.IntSort()))
-    h = z3.Const("h!ct", HEAPS)
-    k = kq("k!ct")
-    return z3.BoolVal(True)
 
 
 def cont(d, heap):
@@ -121,9 +113,8 @@ class CompareDictOfArrays(Contract):
         h = c.old_sym("arr", ValS)
         a, b, tol = c.old.dict_of_arrays, c.old.other_dict_of_arrays, c.old.tolerance
         return [("value", c.result == matches(c, a, b, h, tol)),
-                # the same statement on abstract contents (tolerance 0: extensionality; otherwise the closeness predicate is a
-                # function of the two contents and the tolerance)
-                ("value-on-contents", c.result == matches_c(cont(a, h), cont(b, h), tol))]
+                # tolerance 0, pointwise (equality of contents is extensionality)
+                ("value-pointwise", z3.Implies(tol == 0, c.result == content_eq(a, b, h, h)))]
 
 
 @register
@@ -269,6 +260,7 @@ class SimpleCacheGetitem(Contract):
             ("miss:empty", z3.Implies(z3.Not(hit), z3.And(r.outputs.n == 0, r.jacobian.n == 0))),
             ("miss:inputs", z3.Implies(z3.Not(hit), content_eq(r.inputs, c.old.input_data, h1, h0))),
             ("heap-unchanged", z3.And(c.new_ctr == c.old_ctr, h1 == h0)),
+            ("result-allocated", z3.And(allocated(r.inputs, c.old_ctr), allocated(r.outputs, c.old_ctr), allocated(r.jacobian, c.old_ctr))),
         ]
 
 
